@@ -1,6 +1,8 @@
 (* C14 — the eight board symmetries commute with the rules.
    Only statements, `exact`, and Print Assumptions live here.
-   Proof files: Sym.v (group table), SymRules1-4.v (Rules.v level), SymCode1-2.v (code-shaped TransformMove / Move). *)
+   Proof files: Sym.v (group table), SymRules1-4.v (Rules.v level), SymCode1-2.v (code-shaped TransformMove / Move),
+   Import3-6.v (the rebuilt images, default configuration), TpsCfg.v / SymmetryCfg.v / ImportCfg1-5.v (the rebuilt images under the
+   position's OWN configuration, which is what symmetry.Symmetries passes to FromSquares: last block). *)
 From Coq Require Import NArith ZArith List Lia Bool.
 Require Import Rules Sym SymRules1 SymRules2 SymRules3 SymRules4.
 Require Import Board Move GameOver Tps Symmetry Refine SymCode1 Canon2 SymCode2 SymCode3 SymCode4.
@@ -8,6 +10,8 @@ Require Import Preserve1 Preserve6 GameOverFacts2.
 Require TpsFacts5 PreserveEx.
 Require Import Generated.Consts.
 Require Import Import3 Import4 Import5 Import6.
+Require Import TpsCfg SymmetryCfg ImportCfg1 ImportCfg2 ImportCfg3 ImportCfg4.
+Require PnCong3 ImportCfg5 Import1.
 Import ListNotations.
 Close Scope Z_scope. Close Scope N_scope.
 
@@ -267,6 +271,230 @@ Theorem C14_nonvacuous_symmetries_sym :
   pos_ok p_a1 /\ no_collision p_a1 /\ map snd (symmetries gen_basis p_a1) = [0; 1; 2; 4].
 Proof. exact ex_symmetries_sym. Qed.
 Print Assumptions C14_nonvacuous_symmetries_sym.
+
+(* ==================== THE REBUILT IMAGES UNDER THE POSITION'S OWN CONFIGURATION (TpsCfg.v, SymmetryCfg.v, ImportCfg1-5.v) ====================
+   symmetry.Symmetries calls tak.FromSquares(p.Config(), ...): custom Pieces / Capstones / BlackWinsTies are carried over to every
+   image.  The models above (Tps.from_squares, Symmetry.image, Symmetry.symmetries) are FromSquares at tak.Config{Size} - default
+   counts, flag false - and their theorems carry the hypotheses reserves_match_board p and black_wins_ties p = false.  Here:
+     from_squares_cfg basis sz stones caps bwt board mv   tak.FromSquares(Config{sz, stones, caps, bwt}, board, mv): tak.New's
+                        defaulting (a count of 0 selects the default of the size), byte reserves, one byte decrement per piece;
+     image_cfg basis stones caps p s / symmetries_cfg     the image / the list Symmetries builds, under p.Config() = {size p, stones,
+                        caps, black_wins_ties p} (Pieces and Capstones are not fields of the model's position record: parameters);
+     imgck stones caps p k := image_cfg gen_basis stones caps p (csym (size p) k);
+     cfgS n stones / cfgC n caps                          the effective counts: byte(Pieces), byte(Capstones) after the defaulting;
+     reserves_match_cfg stones caps p                     p's four reserves are (cfgS, cfgC, cfgS, cfgC) minus the pieces on its board,
+                        in byte arithmetic (dec8) - what tak.New(cfg) establishes, every FromSquares(cfg, ...) computes
+                        (C14_cfg_from_squares_matches), every move preserves (C14_cfg_move_matches) and every image has again
+                        (C14_cfg_image_matches); implied by conservation `reserve + pieces on board = configuration`
+                        (C14_cfg_cons4_matches; PnCong3.cinv: C14_cfg_cinv_matches).
+   This is the ONLY hypothesis beyond pos_ok that remains; nothing is assumed about the flag: it is carried over and the images have it.
+   The executed model (ocaml/drv_c14.ml) is symmetries_cfg. *)
+
+(* the old models are the default-configuration instances of the new ones *)
+Theorem C14_cfg_from_squares_zero : forall basis sz board mv,
+  from_squares basis sz board mv = from_squares_cfg basis sz 0%N 0%N false board mv.
+Proof. exact from_squares_zero. Qed.
+Print Assumptions C14_cfg_from_squares_zero.
+
+Theorem C14_cfg_from_squares_default : forall basis sz board mv,
+  from_squares basis sz board mv =
+  from_squares_cfg basis sz (nth (N.to_nat sz) default_pieces 0%N) (nth (N.to_nat sz) default_caps 0%N) false board mv.
+Proof. exact from_squares_default. Qed.
+Print Assumptions C14_cfg_from_squares_default.
+
+Theorem C14_cfg_image_default : forall basis p s, Move.black_wins_ties p = false ->
+  image basis p s = image_cfg basis (nth (N.to_nat (size p)) default_pieces 0%N) (nth (N.to_nat (size p)) default_caps 0%N) p s.
+Proof. exact image_default. Qed.
+Print Assumptions C14_cfg_image_default.
+
+Theorem C14_cfg_symmetries_default : forall basis p, Move.black_wins_ties p = false ->
+  symmetries basis p = symmetries_cfg basis (nth (N.to_nat (size p)) default_pieces 0%N) (nth (N.to_nat (size p)) default_caps 0%N) p.
+Proof. exact symmetries_default. Qed.
+Print Assumptions C14_cfg_symmetries_default.
+
+(* FromSquares under ANY configuration (the import theorem of C01/C08/C10 without the default-configuration restriction): for every
+   board that fits the representation the result satisfies pos_ok for any counts and flag, has the flag, shows the board, its reserves
+   are the byte decrements, and it abstracts to cfg_apos (reserves = configuration - pieces on the board) when the counts fit *)
+Theorem C14_cfg_from_squares_wf : forall n stones caps bwt board mv, Import1.fit_board n board ->
+  let q := from_squares_cfg gen_basis (N.of_nat n) stones caps bwt board mv in
+  pos_ok q /\ size q = N.of_nat n /\ Move.move q = mv /\ Move.black_wins_ties q = bwt /\
+  sq (abs q) = map (map Import1.piece_of) (concat board) /\
+  (whiteStones q, whiteCaps q, blackStones q, blackCaps q) = cfg_reserves n stones caps (Import1.pieces_of board) /\
+  (counts_fit_cfg n stones caps board -> abs q = cfg_apos n stones caps bwt board mv).
+Proof. exact from_squares_cfg_wf. Qed.
+Print Assumptions C14_cfg_from_squares_wf.
+
+Theorem C14_cfg_from_squares_matches : forall n stones caps bwt board mv, Import1.fit_board n board ->
+  reserves_match_cfg stones caps (from_squares_cfg gen_basis (N.of_nat n) stones caps bwt board mv).
+Proof. exact from_squares_cfg_matches. Qed.
+Print Assumptions C14_cfg_from_squares_matches.
+
+(* the image under the configuration: the invariant for ANY coordinate map, ANY counts, ANY flag ... *)
+Theorem C14_cfg_image_pos_ok : forall stones caps p s, pos_ok p -> pos_ok (image_cfg gen_basis stones caps p s).
+Proof. exact image_cfg_pos_ok. Qed.
+Print Assumptions C14_cfg_image_pos_ok.
+
+(* ... its reserves match the configuration whatever p's reserves are ... *)
+Theorem C14_cfg_image_matches : forall stones caps k p, k < 8 -> pos_ok p ->
+  reserves_match_cfg stones caps (image_cfg gen_basis stones caps p (csym (N.to_nat (size p)) k)).
+Proof. exact image_cfg_matches. Qed.
+Print Assumptions C14_cfg_image_matches.
+
+(* ... size, squares, ply AND FLAG need no hypothesis ... *)
+Theorem C14_cfg_image_abs_board : forall stones caps k p, k < 8 -> pos_ok p ->
+  let q := image_cfg gen_basis stones caps p (csym (N.to_nat (size p)) k) in
+  n (abs q) = n (img k (abs p)) /\ sq (abs q) = sq (img k (abs p)) /\ ply (abs q) = ply (img k (abs p)) /\
+  Rules.black_wins_ties (abs q) = Rules.black_wins_ties (img k (abs p)).
+Proof. exact image_cfg_abs_board. Qed.
+Print Assumptions C14_cfg_image_abs_board.
+
+(* ... and it abstracts to the specification-level image: C14_image_abs without `black_wins_ties p = false`, for any configuration *)
+Theorem C14_cfg_image_abs : forall stones caps k p, k < 8 -> pos_ok p -> reserves_match_cfg stones caps p ->
+  abs (image_cfg gen_basis stones caps p (csym (N.to_nat (size p)) k)) = img k (abs p).
+Proof. exact image_cfg_abs. Qed.
+Print Assumptions C14_cfg_image_abs.
+
+Theorem C14_cfg_image_abs_nth : forall stones caps k p, k < 8 -> pos_ok p -> reserves_match_cfg stones caps p ->
+  abs (image_cfg gen_basis stones caps p (nth k (syms (Z.of_N (size p))) (fun x y => (x, y)))) = img k (abs p).
+Proof. exact image_cfg_abs_nth. Qed.
+Print Assumptions C14_cfg_image_abs_nth.
+
+(* where the hypothesis comes from: conservation (reserve + pieces on the board = configuration), the clause of PnCong3.cinv ... *)
+Theorem C14_cfg_cons4_matches : forall stones caps p, pos_ok p ->
+  TpsFacts9.cons4 (abs p) = (cfgS (N.to_nat (size p)) stones, cfgC (N.to_nat (size p)) caps, cfgS (N.to_nat (size p)) stones, cfgC (N.to_nat (size p)) caps) ->
+  reserves_match_cfg stones caps p.
+Proof. exact cons4_matches. Qed.
+Print Assumptions C14_cfg_cons4_matches.
+
+(* ... so C06's game invariant cinv (established by tak.New, preserved by every accepted move) implies ALL hypotheses used below ... *)
+Theorem C14_cfg_cinv_matches : forall stones caps b p,
+  let n := N.to_nat (size p) in
+  PnCong3.cinv (cfgS n stones, cfgC n caps, cfgS n stones, cfgC n caps) b p ->
+  pos_ok p /\ reserves_match_cfg stones caps p /\ res_sums_ok p /\ Move.black_wins_ties p = b.
+Proof. exact ImportCfg5.cinv_matches. Qed.
+Print Assumptions C14_cfg_cinv_matches.
+
+(* ... as does every replay from tak.New(cfg) with at most 64 pieces in the game ... *)
+Theorem C14_cfg_reachable : forall sz bwt stones caps ms p, (3 <= sz <= 8)%N ->
+  (2 * (cfgS (N.to_nat sz) stones + cfgC (N.to_nat sz) caps) <= 64)%N -> Reach1.no_pass ms ->
+  Reach1.replay (Alloc.new_pos sz bwt (cfgS (N.to_nat sz) stones) (cfgC (N.to_nat sz) caps)) ms = Ok p ->
+  pos_ok p /\ reserves_match_cfg stones caps p /\ res_sums_ok p /\ Move.black_wins_ties p = bwt /\ size p = sz.
+Proof. exact reachable_matches_cfg. Qed.
+Print Assumptions C14_cfg_reachable.
+
+(* ... and it is preserved by every move that refines the rules *)
+Theorem C14_cfg_move_matches : forall stones caps p m p', pos_ok p -> pos_ok p' -> reserves_match_cfg stones caps p ->
+  rules_move (abs p) (raw m) = Some (abs p') -> size p' = size p -> reserves_match_cfg stones caps p'.
+Proof. exact move_matches_cfg. Qed.
+Print Assumptions C14_cfg_move_matches.
+
+(* ---- DESIGN 5.14 move_equivariant for q := the image under p's configuration (C14_move_equivariant without the two hypotheses) ---- *)
+Theorem C14_cfg_move_equivariant : forall stones caps k p m, k < 8 -> pos_ok p -> reserves_match_cfg stones caps p ->
+  fits64 p m -> transformable m -> mT m <> 1%N ->
+  let s := csym (N.to_nat (size p)) k in
+  match transform_move s m with
+  | Ok m' => match mv p m, mv (image_cfg gen_basis stones caps p s) m' with
+             | Ok p', Ok q' => abs q' = img k (abs p') /\ pos_ok p' /\ pos_ok q'
+             | Err, Err => True
+             | _, _ => False
+             end
+  | _ => False
+  end.
+Proof. exact image_cfg_move_equivariant. Qed.
+Print Assumptions C14_cfg_move_equivariant.
+
+(* the commuting square field for field; the successor satisfies the hypotheses again and keeps the flag *)
+Theorem C14_cfg_move_commutes : forall stones caps k p m, k < 8 -> pos_ok p -> reserves_match_cfg stones caps p ->
+  fits64 p m -> transformable m -> mT m <> 1%N ->
+  let s := csym (N.to_nat (size p)) k in
+  match transform_move s m with
+  | Ok m' => match mv p m with
+             | Ok p' => mv (image_cfg gen_basis stones caps p s) m' = Ok (image_cfg gen_basis stones caps p' s) /\
+                        pos_ok p' /\ reserves_match_cfg stones caps p' /\ Move.black_wins_ties p' = Move.black_wins_ties p
+             | Err => mv (image_cfg gen_basis stones caps p s) m' = Err
+             | Panic => False
+             end
+  | _ => False
+  end.
+Proof. exact image_cfg_move_commutes. Qed.
+Print Assumptions C14_cfg_move_commutes.
+
+(* ---- DESIGN 5.14 gameover_invariant INCLUDING THE TIE-BREAK FLAG: the image has p's flag, and GameOver / WinDetails (over, reason,
+   winner, both flat counts) are equal - so a drawn flat count is Black's win under BlackWinsTies in every image (C14_cfg_nonvacuous_tie).
+   res_sums_ok p: the byte sums whiteStones+whiteCaps, blackStones+blackCaps that GameOver tests do not wrap (C02's domain). ---- *)
+Theorem C14_cfg_gameover_invariant : forall stones caps k p, k < 8 -> pos_ok p -> reserves_match_cfg stones caps p -> res_sums_ok p ->
+  let q := image_cfg gen_basis stones caps p (csym (N.to_nat (size p)) k) in
+  Move.black_wins_ties q = Move.black_wins_ties p /\ game_over q = game_over p /\ win_details q = win_details p.
+Proof. exact image_cfg_gameover_invariant. Qed.
+Print Assumptions C14_cfg_gameover_invariant.
+
+Theorem C14_cfg_image_image_inv : forall stones caps k p, k < 8 -> pos_ok p -> reserves_match_cfg stones caps p ->
+  let n := N.to_nat (size p) in
+  image_cfg gen_basis stones caps (image_cfg gen_basis stones caps p (csym n k)) (csym n (Sym.inv k)) = p.
+Proof. exact image_cfg_image_inv. Qed.
+Print Assumptions C14_cfg_image_image_inv.
+
+(* ---- DESIGN 5.14 symmetries_exact for Symmetries under p's configuration ---- *)
+Theorem C14_cfg_symmetries_firsts : forall stones caps p,
+  symmetries_cfg gen_basis stones caps p = firsts hkey [] (all_images_cfg stones caps p).
+Proof. exact symmetries_cfg_firsts. Qed.
+Print Assumptions C14_cfg_symmetries_firsts.
+
+(* the collision hypothesis is the one of C14_symmetries_exact: Hash() and the squares of an image do not depend on the configuration *)
+Theorem C14_cfg_no_collision_iff : forall stones caps p, pos_ok p -> (no_collision_cfg stones caps p <-> no_collision p).
+Proof. exact no_collision_cfg_iff. Qed.
+Print Assumptions C14_cfg_no_collision_iff.
+
+(* (A) every entry is (imgck k, k), k < 8, the first index producing that image, satisfies the invariant, HAS p's FLAG AND RESERVES MATCHING
+   THE CONFIGURATION; (B) every one of the eight images is in the list; (C) no two entries show the same board / have the same Hash() *)
+Theorem C14_cfg_symmetries_exact : forall stones caps p, pos_ok p -> no_collision_cfg stones caps p ->
+  let L := symmetries_cfg gen_basis stones caps p in
+  (forall q k, In (q, k) L -> k < 8 /\ q = imgck stones caps p k /\ pos_ok q /\ Move.black_wins_ties q = Move.black_wins_ties p /\
+                              reserves_match_cfg stones caps q /\ forall i, i < k -> imgck stones caps p i <> q) /\
+  (forall k, k < 8 -> exists j, j <= k /\ In (imgck stones caps p k, j) L) /\
+  NoDup (map (fun x => sq (abs (fst x))) L) /\ NoDup (map hkey L).
+Proof. exact symmetries_cfg_exact. Qed.
+Print Assumptions C14_cfg_symmetries_exact.
+
+Theorem C14_cfg_symmetries_abs : forall stones caps p q k, pos_ok p -> reserves_match_cfg stones caps p ->
+  In (q, k) (symmetries_cfg gen_basis stones caps p) -> k < 8 /\ q = imgck stones caps p k /\ abs q = img k (abs p).
+Proof. exact symmetries_cfg_abs. Qed.
+Print Assumptions C14_cfg_symmetries_abs.
+
+(* which transforms are listed does not depend on the configuration *)
+Theorem C14_cfg_symmetries_indices : forall stones caps p, pos_ok p ->
+  map snd (symmetries_cfg gen_basis stones caps p) = map snd (symmetries gen_basis p).
+Proof. exact symmetries_cfg_indices. Qed.
+Print Assumptions C14_cfg_symmetries_indices.
+
+(* NON-VACUITY.  (1) the 5x5 board of Import1.v under 7 stones and 3 capstones a side with BlackWinsTies.  (2) p14c: the 14-ply 5x5 game of
+   PreserveEx.v played with 25 stones and 2 capstones under BlackWinsTies satisfies the hypotheses; rotated (k = 6) the square commutes,
+   the image has the flag and 23 white stones in reserve (the default-configuration image has 19).  (3) p_tie: a full 3x3 board, four flats
+   each, 6 stones a side, BlackWinsTies: Black wins in p_tie and in all eight images under its configuration, all eight are listed; the
+   image rebuilt under the default configuration (Symmetry.image) reports a draw. *)
+Theorem C14_cfg_nonvacuous_from_squares :
+  let q := from_squares_cfg gen_basis 5%N 7%N 3%N true Import1.ex_board5 13%Z in
+  pos_ok q /\ abs q = cfg_apos 5 7%N 3%N true Import1.ex_board5 13%Z /\ Move.black_wins_ties q = true /\
+  wstones (abs q) = 2%N /\ wcaps (abs q) = 2%N /\ bstones (abs q) = 2%N /\ bcaps (abs q) = 2%N.
+Proof. exact ex_from_squares_cfg_wf. Qed.
+Print Assumptions C14_cfg_nonvacuous_from_squares.
+
+Theorem C14_cfg_nonvacuous_image :
+  exists m' p', transform_move (csym 5 6) PreserveEx.m_long = Ok m' /\ m' <> PreserveEx.m_long /\ mv p14c PreserveEx.m_long = Ok p' /\
+    mv (image_cfg gen_basis 25%N 2%N p14c (csym 5 6)) m' = Ok (image_cfg gen_basis 25%N 2%N p' (csym 5 6)) /\
+    White (image_cfg gen_basis 25%N 2%N p14c (csym 5 6)) <> White p14c /\
+    Move.black_wins_ties (image_cfg gen_basis 25%N 2%N p14c (csym 5 6)) = true /\
+    whiteStones (image_cfg gen_basis 25%N 2%N p14c (csym 5 6)) = 23%N /\ whiteStones (image gen_basis p14c (csym 5 6)) = 19%N /\
+    game_over (image_cfg gen_basis 25%N 2%N p14c (csym 5 6)) = game_over p14c.
+Proof. exact ex_image_cfg_move_commutes. Qed.
+Print Assumptions C14_cfg_nonvacuous_image.
+
+Theorem C14_cfg_nonvacuous_tie :
+  pos_ok p_tie /\ reserves_match_cfg 6%N 0%N p_tie /\ res_sums_ok p_tie /\ game_over p_tie = Some (true, GBlack) /\
+  (forall k, k < 8 -> game_over (imgck 6%N 0%N p_tie k) = Some (true, GBlack) /\ game_over (imgk p_tie k) = Some (true, GNone)) /\
+  map snd (symmetries_cfg gen_basis 6%N 0%N p_tie) = [0; 1; 2; 3; 4; 5; 6; 7].
+Proof. exact ex_tie_black_wins. Qed.
+Print Assumptions C14_cfg_nonvacuous_tie.
 
 (* non-vacuity: SymRules3.ex_equivariant (5x5, a two-high stack slides, k = 6), ex_equivariant_illegal, ex_road (3x3 road and its image),
    SymCode1.ex_transform. *)
